@@ -6,6 +6,7 @@ import (
 	"go/token"
 	"go/types"
 	"math/big"
+	"sort"
 	"strings"
 
 	"golang.org/x/tools/go/packages"
@@ -59,6 +60,8 @@ func checkC04(c *Ctx, r *Report) {
 	checkRSRoots(c, r)
 	checkChienSearch(c, r)
 	checkFieldUse(c, r)
+	checkRSState(c, r)
+	checkRSWhole(c, r)
 	// kinds of the decoder
 	r.Rule("E-KIND-RS", "ReedSolomonDecoder.Decode returns only ReedSolomonException-kind errors (so callers' checksum mapping sees every failure)", 1)
 	nf := c.newNilFlow()
@@ -436,13 +439,13 @@ func checkRSRoots(c *Ctx, r *Report) {
 		base := polyAtom("call:(*common/reedsolomon.GenericGF).GetGeneratorBase(fld(" + ro + ",field))")
 		twoS := polyAtom(objAtom(paramObjs(p, fd)[1]))
 		okArg, okStore := false, false
-		var kk string
+		var kks []string
 		for _, cl := range s.calls {
 			if isMethodNamed(cl.Callee, "common/reedsolomon", "GenericGF", "Exp") && len(cl.Args) == 1 {
 				for _, k := range kAtoms(cl.Args[0]) {
 					if cl.Args[0].equal(polyAtom(k).add(base)) {
 						okArg = true
-						kk = k
+						kks = append(kks, k)
 						// loop condition i < twoS
 						bound := false
 						for _, cd := range cl.Conds {
@@ -458,10 +461,12 @@ func checkRSRoots(c *Ctx, r *Report) {
 			}
 		}
 		for _, st := range s.stores {
-			if st.Index != nil && kk != "" && st.Loop == 1 {
-				want := polyAtom("len(" + st.Base.String() + ")").sub(polyInt(1)).sub(polyAtom(kk))
-				if st.Index.equal(want) {
-					okStore = true
+			for _, k1 := range kks {
+				if st.Index != nil && st.Loop == 1 {
+					want := polyAtom("len(" + st.Base.String() + ")").sub(polyInt(1)).sub(polyAtom(k1))
+					if st.Index.equal(want) {
+						okStore = true
+					}
 				}
 			}
 		}
@@ -764,5 +769,110 @@ func checkAztecFieldLadder(c *Ctx, r *Report, rule string) {
 		r.Undecided(rule, key, c.pos(ladder.Pos()), bad)
 	} else {
 		r.Check(bad == "", rule, key, c.pos(ladder.Pos()), bad)
+	}
+}
+
+// W-RSSTATE: codec objects keep no state between calls
+func checkRSState(c *Ctx, r *Report) {
+	r.Rule("W-RSSTATE", "a Reed-Solomon decoder keeps no state between Decode calls and an encoder none but its generator cache: in common/reedsolomon, storage reachable through a field of ReedSolomonDecoder or ReedSolomonEncoder is written (Store, copy) only on an object allocated in the same function (the constructors), except ReedSolomonEncoder.cachedGenerators in buildGenerator, whose growth S-RSROOTS decides - so the result of a call cannot depend on earlier calls on the same instance", 2)
+	checkNoInstanceState(c, r, "W-RSSTATE", "common/reedsolomon", []string{"ReedSolomonDecoder", "ReedSolomonEncoder"}, func(f *ssa.Function, tn, field string, val ssa.Value) bool {
+		return tn == "ReedSolomonEncoder" && field == "cachedGenerators" && f.Name() == "buildGenerator"
+	})
+}
+
+// checkNoInstanceState: in package rel, storage reachable through a field of one of the named struct types is written
+// only on an object allocated in the writing function, or where allow says so.
+func checkNoInstanceState(c *Ctx, r *Report, rule, rel string, names []string, allow func(f *ssa.Function, typeName, field string, val ssa.Value) bool) {
+	sp := c.ssaPkg(rel)
+	if sp == nil {
+		r.AnchorLost(rule, rel, "package not loaded")
+		return
+	}
+	guarded := map[string]bool{}
+	seen := map[string]bool{}
+	for _, name := range names {
+		guarded[name] = true
+		if obj := sp.Pkg.Scope().Lookup(name); obj != nil {
+			seen[name] = true
+		}
+	}
+	bad := map[string][]string{}
+	var root func(v ssa.Value, depth int) (string, string, ssa.Value)
+	root = func(v ssa.Value, depth int) (string, string, ssa.Value) {
+		if depth > 20 {
+			return "", "", nil
+		}
+		switch x := v.(type) {
+		case *ssa.FieldAddr:
+			t := x.X.Type()
+			if p, ok := t.Underlying().(*types.Pointer); ok {
+				if n, ok := p.Elem().(*types.Named); ok && n.Obj().Pkg() == sp.Pkg && guarded[n.Obj().Name()] {
+					return n.Obj().Name(), p.Elem().Underlying().(*types.Struct).Field(x.Field).Name(), x.X
+				}
+			}
+			return root(x.X, depth+1)
+		case *ssa.IndexAddr:
+			return root(x.X, depth+1)
+		case *ssa.Slice:
+			return root(x.X, depth+1)
+		case *ssa.UnOp:
+			if x.Op == token.MUL {
+				return root(x.X, depth+1)
+			}
+		case *ssa.ChangeType:
+			return root(x.X, depth+1)
+		case *ssa.Phi:
+			for _, e := range x.Edges {
+				if tn, f, b := root(e, depth+1); tn != "" {
+					return tn, f, b
+				}
+			}
+		}
+		return "", "", nil
+	}
+	nfuncs := 0
+	for f := range c.allFuncs {
+		if f.Pkg != sp || f.Blocks == nil {
+			continue
+		}
+		nfuncs++
+		note := func(addr, val ssa.Value, pos token.Pos, what string) {
+			tn, field, base := root(addr, 0)
+			if tn == "" {
+				return
+			}
+			if _, fresh := base.(*ssa.Alloc); fresh {
+				return
+			}
+			if allow != nil && allow(f, tn, field, val) {
+				return
+			}
+			if !pos.IsValid() {
+				pos = f.Pos()
+			}
+			bad[tn] = append(bad[tn], fmt.Sprintf("%s %s %s.%s at %s", shortFn(f), what, tn, field, c.pos(pos)))
+		}
+		for _, b := range f.Blocks {
+			for _, in := range b.Instrs {
+				switch x := in.(type) {
+				case *ssa.Store:
+					note(x.Addr, x.Val, x.Pos(), "stores to")
+				case *ssa.Call:
+					if bi, ok := x.Call.Value.(*ssa.Builtin); ok && (bi.Name() == "copy" || bi.Name() == "clear") && len(x.Call.Args) > 0 {
+						note(x.Call.Args[0], nil, x.Pos(), bi.Name()+"s into")
+					}
+				}
+			}
+		}
+	}
+	r.Analysed(fmt.Sprintf("%s: %d function bodies", rel, nfuncs))
+	for _, name := range names {
+		key := rel + "." + name
+		if !seen[name] {
+			r.AnchorLost(rule, key, "type not found")
+			continue
+		}
+		sort.Strings(bad[name])
+		r.Check(len(bad[name]) == 0, rule, key, "", "state written outside its constructor: "+strings.Join(bad[name], "; "))
 	}
 }
